@@ -126,6 +126,9 @@ Definition field_names (fl : pflags) (n : chars) : chars * option chars :=
 Definition wire_name (d : chars * option chars) : chars :=
   match snd d with Some a => a | None => fst d end.
 
+(* ---- enums.py: the member name of an enum value (keyword suffix only; no trimming, no snake-casing) ---- *)
+Definition enum_member (v : chars) : chars := suffix_if (iskeyword v) v.
+
 (* ---- sexp interface ---- *)
 Local Open Scope string_scope.
 Definition dFlags (e : sexp) : option pflags :=
@@ -157,6 +160,7 @@ Definition run_names (e : sexp) : sexp :=
       match dFlags fl with
       | Some f => sB (g_c18 f (s2l s))
       | None => sErr "flags" end
+  | L [A "enum_member"; A s] => A (l2s (enum_member (s2l s)))
   | L [A "kwlist"] => L (map (fun k => A (l2s k)) kwlist)
   | L [A "reserved"] => L (map (fun k => A (l2s k)) pydantic_reserved)
   | _ => sErr "names: bad command"
